@@ -7,6 +7,32 @@ Hooks
 The driver adds: agreement of the two estimators, rejection of the unsupported
 parametrisation by the CVXPY estimator.
 
+History / combination steps (the statement holds for every estimate, whatever the
+objects did before; only calc_estimate / calc_estimate_sequence are used, which
+document that they re-set the loss and the algorithm; draws come from ctx.rng(1),
+so the base workload of a case is unchanged):
+  re-use            two cases of three use estimator / loss / algorithm objects kept
+                    for the whole shard (coordinator's step, ordinary keys)
+  :second-call      the cheapest criterion-stopped run of the case once more with the
+                    very same objects and data through the estimator's DEFAULT path
+                    (no iteration history: judged when the first call vouches for a
+                    criterion stop and no limit warning was printed; the estimate must
+                    be physical) or with only one of the two result flags
+  :dataset-sequence calc_estimate_sequence with two data sets (the case's and a second
+                    one, half of them sampled by the library from generate_from_var /
+                    generate_empi_dists), same objects, both estimators
+  :twin-tomography / :sibling-tomography, :after-...
+                    the same objects serve a second tomography (same sizes = twin;
+                    other number of schedules / outcomes / other parametrisation flag
+                    = sibling) and then the case's tomography again; the CVXPY loss must
+                    accept / reject each by its own flag
+  :result-re-read   every result object still held is read again at the end of the
+                    case: estimate unchanged (1e-12 / 1e-9 relative, three-zone), still
+                    a minimiser for ITS data, iteration history still passes the trace
+                    checker
+The key of the known finding (Povm, >= 3 outcomes, flag on) and exception keys are
+never tagged.
+
 Reference (never calls quara to decide): the loss is recomputed from its
 defining formula on p = A.var + b (A, b read from the tomography object, q read
 from the data), physical sets come from qv.refopt, the optimum comes from the
@@ -26,9 +52,12 @@ RULE = ("a case = one data set (random informationally complete testers, true ob
         "N in {10,1e2,1e3,1e5} shots per schedule or exact probabilities) x loss family (squared error / relative entropy, "
         "identity weights) for QST, POVMT (2-3 outcomes), QPT on one qubit and QST on a qutrit, both parametrisation flags; "
         "per case several fresh backtracking runs (generic / fast loss x 4 stopping modes x eps x history window x "
-        "gamma / mu / start point) and one fresh CVXPY(SCS) estimate; distinct by (tomography, flag, rounded data, loss, "
-        "algorithm options); non-trivial when the start point is not already optimal (loss at the start exceeds the "
-        "reference optimum by more than 1e-6)")
+        "gamma / mu / start point) and one CVXPY(SCS) estimate, on two cases of three with estimator / loss / algorithm "
+        "objects kept for the whole shard; then history steps with the SAME objects (rotating: second call through the "
+        "estimator's default path / calc_estimate_sequence with a second data set / a twin or sibling tomography between two "
+        "calls; CVXPY: sibling then sequence in every case) and a re-read of every held result object; distinct by "
+        "(tomography, flag, rounded data, loss, algorithm options, history step); non-trivial when the start point is not "
+        "already optimal (loss at the start exceeds the reference optimum by more than 1e-6)")
 ANCHORS = [
     "quara/minimization_algorithm/projected_gradient_descent_backtracking.py:ProjectedGradientDescentBacktracking.optimize",
     "quara/minimization_algorithm/projected_gradient_descent_backtracking.py:ProjectedGradientDescentBacktracking._is_doing_for_alpha",
@@ -404,8 +433,11 @@ def stop_analysis(ev, eps, h, max_iter):
 # ===================================================================== trace checker
 
 
-def check_trace(ctx, md, loss_obj, fam, opt, res):
-    """offline checker over the iteration history returned by ProjectedGradientDescentBacktracking.optimize"""
+def check_trace(ctx, md, loss_obj, fam, opt, res, tag="", q=None, light=False, counting=True):
+    """offline checker over the iteration history returned by ProjectedGradientDescentBacktracking.optimize.
+    tag: suffix of every key (history steps); q: the data the run was made for (default: read from the loss object, which
+    is right at the time optimize returns; a history held by the caller is re-checked later with the data of its own
+    call); light: skip the Dykstra direction oracle and the reference-routine feasibility samples (re-reads)."""
     mode = opt.mode_stopping_criterion_gradient_descent
     eps = float(opt.eps)
     h = int(opt.num_history_stopping_criterion_gradient_descent)
@@ -417,6 +449,8 @@ def check_trace(ctx, md, loss_obj, fam, opt, res):
     pre = f"pgdb:{md.t}:{fam}:{mode}"
     info = {"type": md.t, "flag": md.flag, "loss": type(loss_obj).__name__, "mode": mode, "eps": eps, "history": h, "gamma": gamma,
             "mu": mu, "k": res.k}
+    if tag:
+        info["history_step"] = tag
     xs = [np.asarray(x, dtype=np.float64) for x in res.x]
     ys = [np.asarray(y, dtype=np.float64) for y in res.y]
     fx = np.array([float(f) for f in res.fx])
@@ -424,13 +458,15 @@ def check_trace(ctx, md, loss_obj, fam, opt, res):
     ev = np.array([float(e) for e in res.error_values])
     K = len(ev)
     ok_len = len(xs) == len(fx) == K + 1 and len(ys) == len(al) == K and res.k == K and K >= 1
-    ctx.truth("trace:lengths-and-k", ok_len, key=f"{pre}:history-lengths-inconsistent-with-k",
+    ctx.truth("trace:lengths-and-k", ok_len, key=f"{pre}:history-lengths-inconsistent-with-k{tag}",
               info=dict(info, lens=[len(xs), len(fx), len(ys), len(al), K]))
     if not ok_len:
         return None
-    ctx.count("pgdb-iterations", K)
-    ctx.truth("trace:value-is-last-x", np.array_equal(np.asarray(res.value), xs[-1]), key=f"{pre}:returned-value-is-not-last-iterate", info=info)
-    q = np.concatenate([np.asarray(v, dtype=np.float64) for v in loss_obj.prob_dists_q])
+    if counting:
+        ctx.count("pgdb-iterations", K)
+    ctx.truth("trace:value-is-last-x", np.array_equal(np.asarray(res.value), xs[-1]), key=f"{pre}:returned-value-is-not-last-iterate{tag}", info=info)
+    if q is None:
+        q = np.concatenate([np.asarray(v, dtype=np.float64) for v in loss_obj.prob_dists_q])
     L = RefLoss(fam, q)
     ps = [md.probs_v(x) for x in xs]
     clip = np.array([L.near_clip(p) for p in ps])
@@ -441,18 +477,18 @@ def check_trace(ctx, md, loss_obj, fam, opt, res):
         ctx.skip("trace:fx-is-loss-at-x")
     else:
         e = float(np.max(np.abs(fx - Lr)[~clip]))
-        ctx.num("trace:fx-is-loss-at-x", e / sc, 1e-11, 1e-8, key=f"{pre}:recorded-fx-is-not-the-loss-at-recorded-x", info=info)
+        ctx.num("trace:fx-is-loss-at-x", e / sc, 1e-11, 1e-8, key=f"{pre}:recorded-fx-is-not-the-loss-at-recorded-x{tag}", info=info)
     # ---- the loss never increases (recorded and recomputed values)
     inc_rec = float(np.max(np.diff(fx)))
     ok2 = ~(clip[1:] | clip[:-1])
     inc_ref = float(np.max(np.diff(Lr)[ok2])) if np.any(ok2) else 0.0
-    ctx.num("trace:loss-non-increasing", max(inc_rec, inc_ref, 0.0) / sc, 1e-13, 1e-10, key=f"{pre}:loss-increases-along-run",
+    ctx.num("trace:loss-non-increasing", max(inc_rec, inc_ref, 0.0) / sc, 1e-13, 1e-10, key=f"{pre}:loss-increases-along-run{tag}",
             info=dict(info, increase_recorded=inc_rec, increase_reference=inc_ref))
     # ---- x_{k+1} = x_k + alpha_k y_k ; 0 < alpha <= 1
     rec = max(float(np.max(np.abs(xs[j + 1] - (xs[j] + al[j] * ys[j])))) for j in range(K))
     xsc = 1.0 + max(float(np.max(np.abs(x))) for x in xs)
-    ctx.num("trace:step-recurrence", rec / xsc, 1e-14, 1e-10, key=f"{pre}:next-iterate-is-not-x-plus-alpha-y", info=dict(info, alpha_min=float(al.min())))
-    ctx.truth("trace:alpha-in-unit-interval", bool(np.all((al > 0) & (al <= 1))), key=f"{pre}:alpha-outside-unit-interval", info=info)
+    ctx.num("trace:step-recurrence", rec / xsc, 1e-14, 1e-10, key=f"{pre}:next-iterate-is-not-x-plus-alpha-y{tag}", info=dict(info, alpha_min=float(al.min())))
+    ctx.truth("trace:alpha-in-unit-interval", bool(np.all((al > 0) & (al <= 1))), key=f"{pre}:alpha-outside-unit-interval{tag}", info=info)
     # ---- Armijo with the option's own gamma:  f(x_{k+1}) <= f(x_k) + gamma alpha <y, grad f(x_k)>
     worst_arm = -np.inf
     for j in range(K):
@@ -463,7 +499,7 @@ def check_trace(ctx, md, loss_obj, fam, opt, res):
     if worst_arm == -np.inf:
         ctx.skip("trace:armijo")
     else:
-        ctx.num("trace:armijo", max(worst_arm, 0.0) / sc, 1e-12, 1e-9, key=f"{pre}:accepted-step-violates-armijo", info=info)
+        ctx.num("trace:armijo", max(worst_arm, 0.0) / sc, 1e-12, 1e-9, key=f"{pre}:accepted-step-violates-armijo{tag}", info=info)
     # ---- every iterate physical (promised when the start point is: convex combinations of projections)
     s0 = md.stack(xs[0])
     start_ok = max(md.fast_viol(s0)) <= 1e-9
@@ -479,16 +515,16 @@ def check_trace(ctx, md, loss_obj, fam, opt, res):
             weq, wineq = max(weq, e1), max(wineq, e2)
         # the reference routine itself on head / tail / stride (the fast path above uses the same geometry, vectorised)
         smp = sorted(set(list(range(min(3, K + 1))) + [K] + list(range(0, K + 1, max(1, (K + 1) // 6)))))
-        for j in smp:
+        for j in ([] if light else smp):
             e1, e2 = refopt.violations(md.t, md.B, md.d, md.m, md.stack(xs[j]))
             weq, wineq = max(weq, e1), max(wineq, e2)
         if md.flag:
-            ctx.num("trace:iterates-feasible", weq, 1e-12, 1e-9, key=f"pgdb:{md.t}:iterate-violates-built-in-equality-constraint", info=info)
+            ctx.num("trace:iterates-feasible", weq, 1e-12, 1e-9, key=f"pgdb:{md.t}:iterate-violates-built-in-equality-constraint{tag}", info=info)
         else:
-            ctx.num("trace:iterates-feasible", weq, tp, tf, key=f"pgdb:{md.t}:iterate-violates-equality-constraint", info=info)
-        ctx.num("trace:iterates-feasible", wineq, tp, tf, key=f"pgdb:{md.t}:iterate-violates-inequality-constraint", info=info)
+            ctx.num("trace:iterates-feasible", weq, tp, tf, key=f"pgdb:{md.t}:iterate-violates-equality-constraint{tag}", info=info)
+        ctx.num("trace:iterates-feasible", wineq, tp, tf, key=f"pgdb:{md.t}:iterate-violates-inequality-constraint{tag}", info=info)
     # ---- y_k is the projected-gradient direction  P(x_k - grad f(x_k)/mu) - x_k   (sampled iterations)
-    smp = sorted(set([0, min(1, K - 1), K // 2, K - 1]))
+    smp = [] if light else sorted(set([0, min(1, K - 1), K // 2, K - 1]))
     worst_dir = -np.inf
     tp_d = tf_d = None
     for j in smp:
@@ -502,10 +538,12 @@ def check_trace(ctx, md, loss_obj, fam, opt, res):
         y_ref = md.var(pr) - xs[j]
         tp_d, tf_d = md.proj_tol(float(np.linalg.norm(a)))
         worst_dir = max(worst_dir, float(np.linalg.norm(ys[j] - y_ref)))
-    if worst_dir == -np.inf:
+    if light:
+        pass
+    elif worst_dir == -np.inf:
         ctx.skip("trace:direction-is-projected-gradient")
     else:
-        ctx.num("trace:direction-is-projected-gradient", worst_dir, tp_d, tf_d, key=f"pgdb:{md.t}:{fam}:direction-is-not-projected-gradient-step",
+        ctx.num("trace:direction-is-projected-gradient", worst_dir, tp_d, tf_d, key=f"pgdb:{md.t}:{fam}:direction-is-not-projected-gradient-step{tag}",
                 info=info)
     # ---- error values as the selected mode documents them
     if mode == "single_difference_loss":
@@ -517,16 +555,16 @@ def check_trace(ctx, md, loss_obj, fam, opt, res):
     else:
         want = np.array([np.sqrt(np.sum(ys[j] ** 2)) for j in range(K)])
     ctx.num("trace:error-values-match-mode", float(np.max(np.abs(ev - want))) / (sc if "loss" in mode else xsc), 1e-13, 1e-9,
-            key=f"{pre}:error-values-are-not-the-selected-criterion", info=info)
+            key=f"{pre}:error-values-are-not-the-selected-criterion{tag}", info=info)
     # ---- stop <=> windowed sum <= eps (or limit hit)
     by_crit, W = stop_analysis(ev, eps, h, max_iter)
     early = [j for j in range(K - 1) if W[j] <= eps]
-    ctx.truth("trace:stops-iff-criterion", not early, key=f"{pre}:continues-although-criterion-met",
+    ctx.truth("trace:stops-iff-criterion", not early, key=f"{pre}:continues-although-criterion-met{tag}",
               info=dict(info, first_met=early[:1], window=W[early[0]] if early else None))
     limit = K >= max_iter
-    ctx.truth("trace:stops-iff-criterion", by_crit or limit, key=f"{pre}:stops-although-criterion-not-met",
+    ctx.truth("trace:stops-iff-criterion", by_crit or limit, key=f"{pre}:stops-although-criterion-not-met{tag}",
               info=dict(info, last_window=W[-1]))
-    if limit and not by_crit:
+    if limit and not by_crit and counting:
         ctx.count("limit-hit-runs")
     return {"by_criterion": bool(by_crit), "K": K, "L_start": float(Lr[0])}
 
@@ -648,9 +686,19 @@ def shards(tier, seed):
     return out
 
 
+def shape_offset(P):
+    """which history step the first case of a shard takes (the cases of a shard rotate through the three steps; the offset
+    spreads them over the shards, some of which have two cases only)"""
+    return (["few", "many", "exact"].index(P["grp"]) + (1 if P["fam"] == "re" else 0) + (2 if P["flag"] else 0)
+            + ["qst", "povmt", "qpt"].index(P["tomo"]) + (1 if P["shape"] != "S1" else 0))
+
+
 def run_shard(ctx):
     P = ctx.params
     tomo, shape, flag, fam, grp = P["tomo"], P["shape"], P["flag"], P["fam"], P["grp"]
+    import contextlib
+    import io
+
     from quara.interface.cvxpy.qtomography.standard.estimator import CvxpyLossMinimizationEstimator
     from quara.interface.cvxpy.qtomography.standard.loss_function import (CvxpyLossFunctionOption, CvxpyRelativeEntropy,
                                                                          CvxpyUniformSquaredError)
@@ -662,7 +710,21 @@ def run_shard(ctx):
     from quara.protocol.qtomography.standard.projected_linear_estimator import ProjectedLinearEstimator
 
     hs = HookSet(ctx)
-    st = {"ds": None, "rng": None, "qt_stack": [], "models": {}, "runs": [], "cvx": []}
+    # tag: suffix of the keys of verdicts taken while the driver is in a history step; ds_cache: the data sets the driver
+    # registered for the current case (second data set, sibling tomography); opt_log: what the optimize hook saw during the
+    # estimator call in progress; vouch / stdout: see the history-free branch of post_est
+    st = {"ds": None, "rng": None, "qt_stack": [], "models": {}, "runs": [], "cvx": [], "tag": "", "ds_cache": [],
+          "opt_log": [], "vouch": None, "stdout": None, "cur_seq": None}
+
+    def gap_key(md, tag):
+        """mechanism key of the optimality verdict: object class + parametrisation (loss family and stopping mode are in
+        the witness info; which of them show the defect varies with the seed).  The key of the known finding is never
+        tagged: a history step must not turn it into an unlisted key."""
+        tdesc = md.t if md.t != "Povm" else ("Povm(m=2)" if md.m == 2 else "Povm(m>=3)")
+        key = f"pgdb:{tdesc}:on_para_eq_constraint={md.flag}:estimate-is-not-a-minimiser"
+        if not (md.t == "Povm" and md.m >= 3 and md.flag):
+            key += tag
+        return tdesc, key
 
     # ---------------------------------------------------------------- hooks
     def dataset_for(qt, empi_dists):
@@ -671,12 +733,14 @@ def run_shard(ctx):
         if md is None:
             return None
         q = np.concatenate([np.asarray(e[1], dtype=np.float64) for e in empi_dists])
-        ds = st["ds"]
-        if ds is not None and ds.model is md and ds.q.shape == q.shape and np.array_equal(ds.q, q):
-            return ds
+        for ds in [st["ds"]] + st["ds_cache"]:
+            if ds is not None and ds.model is md and ds.q.shape == q.shape and np.array_equal(ds.q, q):
+                return ds
         ns = {int(e[0]) for e in empi_dists}
         ds2 = DataSet(md, q, len(empi_dists), "sampled", None)
         ds2.equal_counts = len(ns) == 1
+        st["ds_cache"].append(ds2)
+        ctx.count("data-set-built-from-call-arguments")
         return ds2
 
     def plin_fn_for(qt, empi_dists):
@@ -690,6 +754,15 @@ def run_shard(ctx):
 
     def pre_est(self, qtomography, *a, **kw):
         st["qt_stack"].append(qtomography)
+        if len(st["qt_stack"]) == 1:
+            st["opt_log"] = []
+            seq = a[0] if a else kw.get("empi_dists_sequence")
+            try:
+                # the data of the call in progress, copied before the library sees them: the trace checker judges the
+                # run for the data set the estimator was ASKED about (position = number of optimisations so far)
+                st["cur_seq"] = [np.concatenate([np.array(e[1], dtype=np.float64) for e in empi]) for empi in seq]
+            except Exception:  # noqa: BLE001 - malformed data: the loss object's own copy is used
+                st["cur_seq"] = None
         return len(st["qt_stack"])
 
     def exc_est(exc, snap, *a, **kw):
@@ -699,14 +772,19 @@ def run_shard(ctx):
     def post_optimize(result, snap, self, loss_function, loss_function_option, algorithm_option, on_iteration_history=False):
         if not on_iteration_history:
             ctx.count("optimize-without-history")
+            st["opt_log"].append(None)
             return
         qt = st["qt_stack"][-1] if st["qt_stack"] else getattr(self, "_qt", None)
         md = model_of_qt(qt, st["models"]) if qt is not None else None
         fam_ = fam_of_loss(loss_function)
         if md is None or fam_ is None or getattr(loss_function_option, "mode_weight", None) != "identity":
             ctx.count("optimize-outside-quantifier")
+            st["opt_log"].append(None)
             return
-        check_trace(ctx, md, loss_function, fam_, algorithm_option, result)
+        q_call = None
+        if len(st["qt_stack"]) == 1 and st.get("cur_seq") is not None and len(st["opt_log"]) < len(st["cur_seq"]):
+            q_call = st["cur_seq"][len(st["opt_log"])]
+        st["opt_log"].append(check_trace(ctx, md, loss_function, fam_, algorithm_option, result, tag=st["tag"], q=q_call))
 
     def post_est(result, snap, self, qtomography, empi_dists_sequence, loss, loss_option, algo, algo_option,
                  is_computation_time_required=False, is_detailed_results_required=False):
@@ -720,6 +798,9 @@ def run_shard(ctx):
             ctx.count("estimate-outside-quantifier")
             return
         det = result.detailed_results
+        tag = st["tag"]
+        log = st["opt_log"] if len(st["opt_log"]) == len(empi_dists_sequence) else None
+        names = ["truth", "projected-linear", "random-physical", "reference-solver", "feasible-direction"]
         for i, empi in enumerate(empi_dists_sequence):
             ds = dataset_for(qtomography, empi)
             if ds is None:
@@ -728,39 +809,70 @@ def run_shard(ctx):
             v_hat = np.asarray(result.estimated_var_sequence[i], dtype=np.float64)
             mode = algo_option.mode_stopping_criterion_gradient_descent
             el = eps_label(algo_option.eps)
-            tdesc = md.t if md.t != "Povm" else ("Povm(m=2)" if md.m == 2 else "Povm(m>=3)")
-            # mechanism key: object class + parametrisation (loss family and stopping mode are in the witness info;
-            # which of them show the defect varies with the seed)
-            key = f"pgdb:{tdesc}:on_para_eq_constraint={md.flag}:estimate-is-not-a-minimiser"
+            tdesc, key = gap_key(md, tag)
             info = {"type": md.t, "flag": md.flag, "loss": type(loss).__name__, "mode": mode, "eps": algo_option.eps,
                     "history": algo_option.num_history_stopping_criterion_gradient_descent, "regime": ds.regime}
-            rec = {"fam": fam_, "mode": mode, "eps": el, "v": v_hat, "ds": ds, "judged": False, "gap": None, "ok": False,
-                   "loss_name": type(loss).__name__}
+            if tag:
+                info["history_step"] = tag
+            rec = {"fam": fam_, "mode": mode, "eps": el, "v": v_hat, "v0": np.array(v_hat, copy=True), "ds": ds, "judged": False,
+                   "gap": None, "ok": False, "loss_name": type(loss).__name__, "tag": tag, "by_crit": False, "k": None, "key": key,
+                   "info": info}
             st["runs"].append(rec)
-            names = ["truth", "projected-linear", "random-physical", "reference-solver", "feasible-direction"]
-            if det is not None and det[i] is not None:
+            d_i = det[i] if det is not None else None
+            if d_i is not None:
                 # wiring: the estimate handed back is the algorithm's result
-                ctx.truth("estimator:returns-algorithm-value", np.array_equal(v_hat, np.asarray(det[i].value, dtype=np.float64)),
-                          key="LossMinimizationEstimator:estimated-var-is-not-the-algorithm-result", info=info)
-            if det is None or det[i] is None or det[i].error_values is None:
-                for n in names:
-                    ctx.skip(f"pgdb:optimal:{n}")
-                ctx.count("estimate-without-history")
-                continue
-            by_crit, _ = stop_analysis(np.array([float(e) for e in det[i].error_values]), float(algo_option.eps),
-                                       int(algo_option.num_history_stopping_criterion_gradient_descent), int(algo_option.max_iteration_optimization))
-            info["k"] = det[i].k
+                ctx.truth("estimator:returns-algorithm-value", np.array_equal(v_hat, np.asarray(d_i.value, dtype=np.float64)),
+                          key="LossMinimizationEstimator:estimated-var-is-not-the-algorithm-result" + tag, info=info)
+            lg = log[i] if log is not None else None
+            if d_i is not None and d_i.error_values is not None:
+                by_crit, _ = stop_analysis(np.array([float(e) for e in d_i.error_values]), float(algo_option.eps),
+                                           int(algo_option.num_history_stopping_criterion_gradient_descent),
+                                           int(algo_option.max_iteration_optimization))
+                k_run = d_i.k
+                L_start = ds.L_v(fam_, np.asarray(d_i.x[0], dtype=np.float64))
+            elif lg is not None:
+                # the iteration history was produced (and checked by the optimize hook) but not handed to the caller
+                by_crit, k_run, L_start = lg["by_criterion"], lg["K"], lg["L_start"]
+                ctx.count("estimates-judged-from-the-optimize-hook")
+            else:
+                # no iteration history at all (the default path of the estimator).  Whether the run ended by its criterion
+                # cannot be read from the result; the verdict is taken only when the driver vouches that the very same
+                # configuration (same tomography, data and option values) ended by its criterion within half of the
+                # iteration limit a moment ago, and the library printed no "exceeds the limit" warning during this call
+                vouch = st["vouch"]
+                warned = st["stdout"] is not None and "exceeds the limit" in st["stdout"].getvalue()
+                if vouch is None or warned or vouch["ds"] is not ds:
+                    for n in names:
+                        ctx.skip(f"pgdb:optimal:{n}")
+                    ctx.count("estimate-without-history")
+                    continue
+                by_crit, k_run, L_start = True, None, vouch["L_start"]
+                ctx.count("estimates-judged-without-history")
+                # (with a history the trace checker sees every iterate; here the estimate itself must be physical)
+                L = ds.loss(fam_)
+                p_hat = md.probs_v(v_hat)
+                mu_ = float(algo_option.mu) if algo_option.mu else 3 / (2 * np.sqrt(md.nv))
+                s_hat = md.stack(v_hat)
+                an = 1.0 + float(np.linalg.norm(s_hat)) + (0.0 if L.near_clip(p_hat) else float(np.linalg.norm(md.A.T @ L.grad_p(p_hat))) / mu_)
+                tpf, tff = md.proj_tol(an)
+                e1, e2 = refopt.violations(md.t, md.B, md.d, md.m, s_hat)
+                if md.flag:
+                    ctx.num("pgdb:estimate-feasible", e1, 1e-12, 1e-9, key=f"pgdb:{md.t}:estimate-violates-built-in-equality-constraint{tag}", info=info)
+                else:
+                    ctx.num("pgdb:estimate-feasible", e1, tpf, tff, key=f"pgdb:{md.t}:estimate-violates-equality-constraint{tag}", info=info)
+                ctx.num("pgdb:estimate-feasible", e2, tpf, tff, key=f"pgdb:{md.t}:estimate-violates-inequality-constraint{tag}", info=info)
+            info["k"] = k_run
+            rec.update(by_crit=bool(by_crit), k=k_run)
             if not by_crit:
                 # cut off by the iteration limit: nothing is promised about optimality (grey), the trace was still checked
                 for n in names:
                     ctx.skip(f"pgdb:optimal:{n}")
                 ctx.count("estimates-not-stopped-by-criterion")
                 continue
-            L_start = ds.L_v(fam_, np.asarray(det[i].x[0], dtype=np.float64))
             tp, tf = pgdb_tol(fam_, mode, el, L_start)
             gap = judge_gap(ctx, "pgdb", key, ds, fam_, v_hat, tp, tf, st["rng"], dict(info, L_start=L_start),
                             plin_fn_for(qtomography, empi))
-            rec.update(judged=gap is not None, gap=gap, ok=(gap is not None and gap < tf), tp=tp, tf=tf, L_start=L_start, k=det[i].k)
+            rec.update(judged=gap is not None, gap=gap, ok=(gap is not None and gap < tf), tp=tp, tf=tf, L_start=L_start)
             if gap is not None:
                 cell = f"{tdesc}|{md.flag}|{fam_}|{mode}|{el}|{ds.regime}"
                 g = ctx.extra.setdefault("gaps", {})
@@ -768,7 +880,7 @@ def run_shard(ctx):
                 b = ds.best(fam_)
                 if b is not None and L_start - b > 1e-6:
                     ctx.nontrivial(md.t, md.flag, ds.q, fam_, type(loss).__name__, mode, el, info["history"],
-                                   float(algo_option.gamma), algo_option.mu, algo_option.var_start)
+                                   float(algo_option.gamma), algo_option.mu, algo_option.var_start, tag)
 
     def post_cvx(result, snap, self, qtomography, empi_dists_sequence, loss, loss_option, algo, algo_option,
                  is_computation_time_required=False):
@@ -778,6 +890,7 @@ def run_shard(ctx):
             return
         scale = max(1.0, float(algo_option.eps_tol) / 1e-9)
         tp, tf = SCS_TOL[0] * scale, SCS_TOL[1] * scale
+        tag = st["tag"]
         for i, empi in enumerate(empi_dists_sequence):
             ds = dataset_for(qtomography, empi)
             if ds is None:
@@ -785,25 +898,29 @@ def run_shard(ctx):
             md = ds.model
             v_hat = np.asarray(result.estimated_var_sequence[i], dtype=np.float64)
             lname = type(loss).__name__
-            key = f"cvxpy-scs:{md.t}:{fam_}:estimate-is-not-a-minimiser"
+            key = f"cvxpy-scs:{md.t}:{fam_}:estimate-is-not-a-minimiser{tag}"
             info = {"type": md.t, "flag": md.flag, "loss": lname, "eps_tol": algo_option.eps_tol, "regime": ds.regime}
+            if tag:
+                info["history_step"] = tag
             L_start = ds.L_s(fam_, md.centre)
             gap = judge_gap(ctx, "cvxpy", key, ds, fam_, v_hat, tp, tf, st["rng"], info, plin_fn_for(qtomography, empi))
             e1, e2 = refopt.violations(md.t, md.B, md.d, md.m, md.stack(v_hat))
-            ctx.num("cvxpy:estimate-feasible", max(e1, e2), tp, tf, key=f"cvxpy-scs:{md.t}:{fam_}:estimate-not-physical", info=dict(info, eq=e1, ineq=e2))
+            ctx.num("cvxpy:estimate-feasible", max(e1, e2), tp, tf, key=f"cvxpy-scs:{md.t}:{fam_}:estimate-not-physical{tag}", info=dict(info, eq=e1, ineq=e2))
             # reported loss = the cvxpy loss (schedule weights N_j/N) at the returned point
             rep = result.estimated_loss_sequence[i] if result.estimated_loss_sequence else None
             if rep is not None and getattr(ds, "equal_counts", True) and gap is not None:
                 ctx.num("cvxpy:reported-loss", abs(float(rep) - ds.L_v(fam_, v_hat) / ds.J), tp, tf,
-                        key=f"cvxpy-scs:{md.t}:{fam_}:reported-loss-is-not-the-loss-at-the-estimate", info=info)
-            st["cvx"].append({"fam": fam_, "v": v_hat, "ds": ds, "gap": gap, "ok": gap is not None and gap < tf})
+                        key=f"cvxpy-scs:{md.t}:{fam_}:reported-loss-is-not-the-loss-at-the-estimate{tag}", info=info)
+            st["cvx"].append({"fam": fam_, "v": v_hat, "v0": np.array(v_hat, copy=True), "ds": ds, "gap": gap,
+                              "ok": gap is not None and gap < tf, "tag": tag, "tp": tp, "tf": tf, "key": key, "info": info,
+                              "rep": None if rep is None else float(rep)})
             if gap is not None:
                 g = ctx.extra.setdefault("gaps", {})
                 cell = f"cvx|{md.t}|{fam_}|{ds.regime}"
                 g[cell] = max(g.get(cell, -1.0), gap)
                 b = ds.best(fam_)
                 if b is not None and L_start - b > 1e-6:
-                    ctx.nontrivial("cvx", md.t, ds.q, fam_, lname)
+                    ctx.nontrivial("cvx", md.t, ds.q, fam_, lname, tag)
 
     hs.method(ProjectedGradientDescentBacktracking, "optimize", post=post_optimize)
     hs.method(LossMinimizationEstimator, "calc_estimate_sequence", pre=pre_est, post=post_est, on_exc=exc_est)
@@ -824,12 +941,64 @@ def run_shard(ctx):
             ctx.count("re-used:" + name.split(":")[0])
         return shared[name]
 
+    def copy_emp(empd):
+        return [(n, np.array(p, dtype=np.float64)) for n, p in empd]
+
+    def sample_data(md_, J_, truth_s_, N_, rng_):
+        """empirical distributions for the model's tomography, exactly as the base workload makes them"""
+        pj_ = np.clip(md_.probs_s(truth_s_).reshape(J_, -1), 0.0, None)
+        if N_ is None:
+            qs_ = [r / r.sum() for r in pj_]
+            qs_ = [np.where(r < 1e-9, 0.0, r) for r in qs_]
+            qs_ = [r / r.sum() for r in qs_]
+            n_rec_ = 100000
+        else:
+            qs_ = [rng_.multinomial(N_, r / r.sum()) / N_ for r in pj_]
+            n_rec_ = N_
+        return [(n_rec_, np.array(r, dtype=np.float64)) for r in qs_]
+
+    def register(md_, empd, regime, truth_s_):
+        """a data set the driver is about to hand to the library: the hooks find it by its values"""
+        q_ = np.concatenate([np.asarray(p, dtype=np.float64) for _, p in empd])
+        for d_ in [st["ds"]] + st["ds_cache"]:
+            if d_ is not None and d_.model is md_ and d_.q.shape == q_.shape and np.array_equal(d_.q, q_):
+                return d_
+        d_ = DataSet(md_, q_, len(empd), regime, truth_s_)
+        d_.equal_counts = len({int(n) for n, _ in empd}) == 1
+        st["ds_cache"].append(d_)
+        return d_
+
+    def shape_sig(qt_):
+        return (type(qt_).__name__, bool(qt_.on_para_eq_constraint), int(qt_.num_schedules), int(qt_.num_variables),
+                tuple(int(qt_.num_outcomes(j)) for j in range(qt_.num_schedules)))
+
+    def pgdb_call(h, qt_, seqs, tag, timed=True, detailed=True, single=True):
+        """one more estimate with the loss / loss option / algorithm / estimator objects of the held run h"""
+        st["tag"] = tag
+        n0 = len(st["runs"])
+        try:
+            fn = h["est"].calc_estimate if single else h["est"].calc_estimate_sequence
+            ok, res = ctx.attempt(fn, qt_, seqs, h["loss"], h["lopt"], h["algo"], h.get("opt_now", h["opt"]),
+                                  is_computation_time_required=timed, is_detailed_results_required=detailed)
+        finally:
+            st["tag"] = ""
+        if not ok:
+            # (exception keys are never tagged: one of them names a known finding)
+            ctx.violation(f"pgdb:{fam}:" + ctx.exc_key(res),
+                          {"type": TOMOS[tomo], "flag": flag, "loss": type(h["loss"]).__name__, "mode": h["mode"], "history_step": tag,
+                           "message": str(res)[:200]})
+            return None, []
+        ctx.count("pgdb-estimates" + tag)
+        return res, st["runs"][n0:]
+
     try:
         for i in ctx.cases(P["n"]):
             rng = ctx.rng()
+            hrng = ctx.rng(1)  # all draws of the history steps: the base workload of a case is what it was without them
             reuse = (i % 3 != 0)
             st["rng"] = rng
-            st["runs"], st["cvx"] = [], []
+            st["runs"], st["cvx"], st["ds_cache"], st["tag"], st["vouch"], st["stdout"] = [], [], [], "", None, None
+            st["models"].clear()  # (never mid-case: the data sets of a case are recognised by their model object)
             qt, c_sys, B, d, t, m = build_problem(tomo, shape, flag, rng)
             # few shots + boundary truths make the positivity constraints active (that is where constraint bugs show)
             kind = str(rng.choice(["interior", "boundary", "pure"], p=[0.2, 0.3, 0.5] if grp == "few" else [0.34, 0.33, 0.33]))
@@ -865,6 +1034,7 @@ def run_shard(ctx):
             combos = [(fast, mode) for fast in (False, True) for mode in MODES]
             # rotate so that across cases every (variant, mode) is visited
             picks = [combos[(i * P["runs"] + j) % len(combos)] for j in range(P["runs"])]
+            held = []
             for (fast, mode) in picks:
                 Lc, Oc = loss_classes(fam, fast)
                 eps = EPS_BY_MODE[mode][int(rng.integers(0, 2))]
@@ -884,10 +1054,12 @@ def run_shard(ctx):
                 if not ok:
                     ctx.violation(f"pgdb:option:{mode}:" + ctx.exc_key(opt), {"kw": {k: v for k, v in kw.items() if k != 'var_start'}})
                     continue
-                ok, res = ctx.attempt(obj(reuse, "estimator", LossMinimizationEstimator).calc_estimate, qt, fresh(),
-                                      obj(reuse, f"loss:{Lc.__name__}", Lc), Oc("identity"),
-                                      obj(reuse, "pgdb", ProjectedGradientDescentBacktracking), opt, is_computation_time_required=True,
-                                      is_detailed_results_required=True)
+                hd = {"est": obj(reuse, "estimator", LossMinimizationEstimator), "loss": obj(reuse, f"loss:{Lc.__name__}", Lc),
+                      "lopt": Oc("identity"), "algo": obj(reuse, "pgdb", ProjectedGradientDescentBacktracking), "opt": opt, "kw": kw,
+                      "fast": fast, "mode": mode, "start": start, "qt": qt}
+                n0 = len(st["runs"])
+                ok, res = ctx.attempt(hd["est"].calc_estimate, qt, fresh(), hd["loss"], hd["lopt"], hd["algo"], opt,
+                                      is_computation_time_required=True, is_detailed_results_required=True)
                 if not ok:
                     # (one key per loss family and raising site: the stopping mode / type do not matter to an exception)
                     ctx.violation(f"pgdb:{fam}:" + ctx.exc_key(res),
@@ -895,22 +1067,147 @@ def run_shard(ctx):
                                    "random_start": start is not None, "shots": N, "message": str(res)[:200]})
                     continue
                 ctx.count("pgdb-estimates")
+                if len(st["runs"]) == n0 + 1:
+                    hd.update(res=res, rec=st["runs"][-1])
+                    held.append(hd)
             # ---- CVXPY-backed estimator (SCS); supports only the parametrisation with the equality constraint built in
             Lcv = CvxpyUniformSquaredError if fam == "se" else CvxpyRelativeEntropy
-            ok, res = ctx.attempt(obj(reuse, "cvx-estimator", CvxpyLossMinimizationEstimator).calc_estimate, qt, fresh(),
-                                  obj(reuse, f"cvx-loss:{Lcv.__name__}", Lcv), CvxpyLossFunctionOption(),
-                                  obj(reuse, "cvx-algo", CvxpyMinimizationAlgorithm),
-                                  CvxpyMinimizationAlgorithmOption(name_solver="scs", eps_tol=1e-9, mode_constraint="physical"))
-            if flag:
-                if not ok:
-                    ctx.violation(f"cvxpy-scs:{fam}:" + ctx.exc_key(res), {"type": t, "flag": flag, "shots": N, "message": str(res)[:200]})
-                else:
-                    ctx.count("cvxpy-estimates")
-            else:
+            cvo = {"est": obj(reuse, "cvx-estimator", CvxpyLossMinimizationEstimator), "loss": obj(reuse, f"cvx-loss:{Lcv.__name__}", Lcv),
+                   "lopt": CvxpyLossFunctionOption(), "algo": obj(reuse, "cvx-algo", CvxpyMinimizationAlgorithm),
+                   "opt": CvxpyMinimizationAlgorithmOption(name_solver="scs", eps_tol=1e-9, mode_constraint="physical")}
+
+            def cvx_call(qt_, data, tag, single=True, expect_ok=True, t_=t):
+                """one estimate with the case's CVXPY objects; returns (result or None, the records the hook made)"""
+                st["tag"] = tag
+                n0 = len(st["cvx"])
+                try:
+                    fn = cvo["est"].calc_estimate if single else cvo["est"].calc_estimate_sequence
+                    ok, res = ctx.attempt(fn, qt_, data, cvo["loss"], cvo["lopt"], cvo["algo"], cvo["opt"])
+                finally:
+                    st["tag"] = ""
+                if expect_ok:
+                    if not ok:
+                        ctx.violation(f"cvxpy-scs:{fam}:" + ctx.exc_key(res) + tag,
+                                      {"type": t_, "flag": bool(qt_.on_para_eq_constraint), "shots": N, "message": str(res)[:200], "history_step": tag})
+                        return None, []
+                    ctx.count("cvxpy-estimates" + tag)
+                    return res, st["cvx"][n0:]
                 ctx.truth("cvxpy:rejects-flag-off", (not ok) and isinstance(res, ValueError),
-                          key=f"cvxpy-scs:{t}:accepts-on_para_eq_constraint-off" if ok else f"cvxpy-scs:{t}:rejects-flag-off-with-{type(res).__name__}",
-                          info={"flag": flag})
-            # ---- (c) the two estimators agree (same data, equal counts per schedule)
+                          key=(f"cvxpy-scs:{t_}:accepts-on_para_eq_constraint-off" if ok else f"cvxpy-scs:{t_}:rejects-flag-off-with-{type(res).__name__}") + tag,
+                          info={"flag": False, "history_step": tag})
+                return None, []
+
+            cv_res, cv_recs = cvx_call(qt, fresh(), "", expect_ok=flag)
+            held_cvx = [(cv_res, r) for r in cv_recs[:1]] if cv_res is not None else []
+
+            # =========================================================== history / combination steps
+            # The property speaks about every estimate the two estimators return, whatever the objects did before.  Each
+            # step below makes further estimates with objects that have a past (only through the public calc_estimate /
+            # calc_estimate_sequence, which document that they re-set the loss and the algorithm); the hooks judge them with
+            # the oracles and tolerances of the first calls.  Verdict keys carry the name of the step.
+            step = (i + shape_offset(P)) % 3
+            # ---- a second data set for the case's tomography (same truth): library-sampled through the public
+            #      generate_from_var / generate_empi_dists in half of the cases, drawn here otherwise
+            N_b = [n for n in N_GROUPS[grp] if n != N][0] if len(N_GROUPS[grp]) > 1 else int(hrng.choice([100, 1000]))
+            emp_b = None
+            if hrng.random() < 0.5:
+                try:
+                    with hs.paused():
+                        true_obj = qt.generate_empty_estimation_obj_with_setting_info().generate_from_var(md.var(truth_s))
+                        qt.reset_seed(int(hrng.integers(0, 2**31 - 1)))
+                        qt.calc_prob_dists(true_obj)
+                        lib = qt.generate_empi_dists(true_obj, int(N_b), int(hrng.integers(0, 2**31 - 1)))
+                    cand = [(int(n), np.array(p_, dtype=np.float64)) for n, p_ in lib]
+                    if len(cand) == J and all(np.all(np.isfinite(p_)) and abs(p_.sum() - 1) < 1e-9 and p_.min() >= 0 for _, p_ in cand):
+                        emp_b = cand
+                        ctx.count("second-data-set:library-sampled")
+                except Exception:  # noqa: BLE001 - sampling is not this property's business (C14); fall back to own draws
+                    ctx.count("second-data-set:library-sampling-raised")
+            if emp_b is None:
+                emp_b = sample_data(md, J, truth_s, int(N_b), hrng)
+            ds_b = register(md, emp_b, "sampled", truth_s)
+            # ---- a sibling tomography: same type, in half of the cases the same shape (a twin: other testers, same sizes),
+            #      otherwise another shape / outcome number / parametrisation flag
+            want_twin = hrng.random() < 0.5
+            flag2 = flag if (want_twin or hrng.random() < 0.6) else (not flag)
+            sib = None
+            for _ in range(12):
+                cand = build_problem(tomo, shape, flag2, hrng)
+                if (shape_sig(cand[0]) == shape_sig(qt)) == want_twin:
+                    sib = cand
+                    break
+                sib = sib or cand
+            qt2, _, B2, d2, t2, m2 = sib
+            twin = shape_sig(qt2) == shape_sig(qt)
+            md2 = model_of_qt(qt2, st["models"])
+            kind2 = str(hrng.choice(["interior", "boundary", "pure"]))
+            ops2 = draw_true_ops(t2, d2, m2, hrng, kind2)
+            truth2_s = refopt.stack_from_ops(t2, B2, d2, m2, ops2 if t2 != "Gate" else [ref.choi_of_map(ref.kraus_map(ops2), d2)])
+            emp2 = sample_data(md2, int(qt2.num_schedules), truth2_s, N, hrng)
+            register(md2, emp2, "exact" if N is None else "sampled", truth2_s)
+            sib_tag = ":twin-tomography" if twin else ":sibling-tomography"
+            after_tag = ":after-twin-tomography" if twin else ":after-sibling-tomography"
+
+            # ---- backtracking: the configuration that ended by its criterion in the fewest iterations is used again
+            cands = [hd for hd in held if hd["rec"]["by_crit"] and hd["rec"]["k"] is not None]
+            pick = min(cands, key=lambda hd: hd["rec"]["k"]) if cands else None
+            extra_held = []
+            if pick is None:
+                ctx.count("history:no-criterion-stopped-run-to-repeat")
+            elif step == 0:
+                # (a) second call: the very same estimator / loss / loss option / algorithm / option objects and the same
+                #     data once more, after whatever the other runs of the case did to them - through the estimator's
+                #     DEFAULT path (no computation time, no detailed results => optimize(on_iteration_history=False)),
+                #     or with one of the two flags only
+                variant = [(False, False), (False, False), (False, False), (False, True), (True, False)][int(hrng.integers(0, 5))]
+                max_it = int(pick["opt"].max_iteration_optimization)
+                if pick["rec"]["judged"] and pick["rec"]["ok"] and pick["rec"]["k"] <= max_it // 2:
+                    st["vouch"] = {"ds": ds, "L_start": pick["rec"]["L_start"]}
+                buf = io.StringIO()
+                st["stdout"] = buf
+                try:
+                    with contextlib.redirect_stdout(buf):
+                        res2, recs2 = pgdb_call(pick, qt, fresh(), ":second-call", timed=variant[0], detailed=variant[1])
+                finally:
+                    st["vouch"], st["stdout"] = None, None
+                if res2 is not None and recs2:
+                    extra_held.append(dict(pick, res=res2, rec=recs2[0]))
+            elif step == 1:
+                # (c) calc_estimate_sequence with two data sets (the case's and the second one, random order) and the same
+                #     objects: the estimator re-sets loss and algorithm per data set; every position is judged for its own data
+                order = [emp_b, emp] if hrng.random() < 0.5 else [emp, emp_b]
+                res2, recs2 = pgdb_call(pick, qt, [copy_emp(e) for e in order], ":dataset-sequence", single=False)
+                if res2 is not None and len(recs2) == 2:
+                    extra_held.append(dict(pick, res=res2, rec=recs2[0], pos=0))
+                    extra_held.append(dict(pick, res=res2, rec=recs2[1], pos=1))
+            else:
+                # (c) the same objects serve the sibling tomography (no explicit start point there: it has the case's size),
+                #     then the case's tomography and data again
+                sib_h = dict(pick)
+                if pick["start"] is not None:
+                    ok, o2 = ctx.attempt(ProjectedGradientDescentBacktrackingOption, **dict(pick["kw"], var_start=None))
+                    sib_h["opt_now"] = o2 if ok else None
+                if sib_h.get("opt_now", sib_h["opt"]) is not None:
+                    pgdb_call(sib_h, qt2, copy_emp(emp2), sib_tag)
+                res2, recs2 = pgdb_call(pick, qt, fresh(), after_tag)
+                if res2 is not None and recs2:
+                    extra_held.append(dict(pick, res=res2, rec=recs2[0]))
+
+            # ---- CVXPY-backed estimator, same objects: sibling tomography (accepted / rejected by ITS flag), then the
+            #      case's tomography with a sequence of two data sets (or the rejection again)
+            if flag2:
+                cvx_call(qt2, copy_emp(emp2), sib_tag, t_=t2)
+            else:
+                cvx_call(qt2, copy_emp(emp2), sib_tag, expect_ok=False, t_=t2)
+            if flag:
+                order = [emp_b, emp] if hrng.random() < 0.5 else [emp, emp_b]
+                res3, recs3 = cvx_call(qt, [copy_emp(e) for e in order], after_tag + ":dataset-sequence", single=False)
+                if res3 is not None and len(recs3) == 2:
+                    held_cvx += [(res3, recs3[0], 0), (res3, recs3[1], 1)]
+            else:
+                cvx_call(qt, fresh(), after_tag, expect_ok=False)
+
+            # ---- (c) the two estimators agree (same data, equal counts per schedule; the estimates as they were returned)
             for cv in st["cvx"]:
                 for run in st["runs"]:
                     if run["ds"] is not cv["ds"] or run["fam"] != cv["fam"]:
@@ -920,19 +1217,73 @@ def run_shard(ctx):
                         ctx.skip("agree:loss")
                         ctx.skip("agree:point")
                         continue
-                    Lp, Lv = ds.L_v(fam, run["v"]), ds.L_v(fam, cv["v"])
-                    tp = run["tp"] + SCS_TOL[0]
-                    tf = max(run["tf"] + SCS_TOL[1], 100 * tp)
-                    info = {"type": t, "loss": run["loss_name"], "mode": run["mode"], "eps": run["eps"], "L_pgdb": Lp, "L_cvxpy": Lv}
-                    ctx.num("agree:loss", abs(Lp - Lv), tp, tf, key=f"pgdb-vs-cvxpy-scs:{t}:{fam}:{run['mode']}:losses-differ", info=info)
-                    if fam == "se" and md.sigma_min > 1e-3:
+                    dsx = run["ds"]
+                    mdx = dsx.model
+                    htag = run["tag"] or cv["tag"]  # (one step name per key: the backtracking side's if it has one)
+                    Lp, Lv = dsx.L_v(fam, run["v0"]), dsx.L_v(fam, cv["v0"])
+                    tp = run["tp"] + cv["tp"]
+                    tf = max(run["tf"] + cv["tf"], 100 * tp)
+                    info = {"type": mdx.t, "loss": run["loss_name"], "mode": run["mode"], "eps": run["eps"], "L_pgdb": Lp, "L_cvxpy": Lv}
+                    if htag:
+                        info["history_step"] = htag
+                    ctx.num("agree:loss", abs(Lp - Lv), tp, tf, key=f"pgdb-vs-cvxpy-scs:{mdx.t}:{fam}:{run['mode']}:losses-differ{htag}", info=info)
+                    if fam == "se" and mdx.sigma_min > 1e-3:
                         # strictly convex: L(x) - L* >= sigma_min^2 |s - s*|^2 on the equality set => the minimiser is unique
-                        dist = float(np.linalg.norm(md.stack(run["v"]) - md.stack(cv["v"])))
-                        pp = 2 * np.sqrt(tp) * md.S_max / md.sigma_min
-                        ctx.num("agree:point", dist, pp, max(100 * pp, 2 * np.sqrt(tf) * md.S_max / md.sigma_min),
-                                key=f"pgdb-vs-cvxpy-scs:{t}:{fam}:{run['mode']}:points-differ", info=dict(info, sigma_min=md.sigma_min))
+                        dist = float(np.linalg.norm(mdx.stack(run["v0"]) - mdx.stack(cv["v0"])))
+                        pp = 2 * np.sqrt(tp) * mdx.S_max / mdx.sigma_min
+                        ctx.num("agree:point", dist, pp, max(100 * pp, 2 * np.sqrt(tf) * mdx.S_max / mdx.sigma_min),
+                                key=f"pgdb-vs-cvxpy-scs:{mdx.t}:{fam}:{run['mode']}:points-differ{htag}", info=dict(info, sigma_min=mdx.sigma_min))
                     else:
                         ctx.skip("agree:point")
+
+            # ---- (a) the results the caller still holds are read again after everything else: the estimate is the one
+            #      that was returned (three-zone, not bitwise), it is still a minimiser for ITS data, and the iteration
+            #      history still passes the trace checker
+            rtag = ":result-re-read"
+            for hd in held + extra_held:
+                rec, res_h, pos = hd["rec"], hd["res"], hd.get("pos", 0)
+                ok, v_now = ctx.attempt(lambda r=res_h, p_=pos: np.asarray(r.estimated_var_sequence[p_], dtype=np.float64))
+                if not ok:
+                    ctx.violation("LossMinimizationEstimationResult:" + ctx.exc_key(v_now) + rtag, {"type": t})
+                    continue
+                dsx = rec["ds"]
+                mdx = dsx.model
+                same = v_now.shape == rec["v0"].shape
+                err = float(np.max(np.abs(v_now - rec["v0"]))) / (1.0 + float(np.max(np.abs(rec["v0"])))) if same else np.inf
+                ctx.num("reread:estimate-unchanged", err, 1e-12, 1e-9, key="LossMinimizationEstimator:pgdb:estimate-held-by-caller-changed" + rtag,
+                                  info=dict(rec["info"], first_step=rec["tag"]))
+                if same and rec["judged"] and rec["ok"]:
+                    _, key2 = gap_key(mdx, rec["tag"] + rtag)
+                    judge_gap(ctx, "pgdb", key2, dsx, rec["fam"], v_now, rec["tp"], rec["tf"], rng, dict(rec["info"], history_step=rec["tag"] + rtag))
+                det = res_h.detailed_results
+                d_i = det[pos] if det is not None and len(det) > pos else None
+                if d_i is not None and d_i.error_values is not None:
+                    st["tag"] = rtag
+                    try:
+                        check_trace(ctx, mdx, hd["loss"], rec["fam"], hd.get("opt_now", hd["opt"]), d_i, tag=rec["tag"] + rtag, q=dsx.q,
+                                    light=hd is not pick, counting=False)
+                    finally:
+                        st["tag"] = ""
+            for item in held_cvx:
+                res_h, rec = item[0], item[1]
+                pos = item[2] if len(item) > 2 else 0
+                ok, v_now = ctx.attempt(lambda r=res_h, p_=pos: np.asarray(r.estimated_var_sequence[p_], dtype=np.float64))
+                if not ok:
+                    ctx.violation("CvxpyLossMinimizationEstimationResult:" + ctx.exc_key(v_now) + rtag, {"type": t})
+                    continue
+                dsx = rec["ds"]
+                same = v_now.shape == rec["v0"].shape
+                err = float(np.max(np.abs(v_now - rec["v0"]))) / (1.0 + float(np.max(np.abs(rec["v0"])))) if same else np.inf
+                ctx.num("reread:estimate-unchanged", err, 1e-12, 1e-9, key="CvxpyLossMinimizationEstimator:estimate-held-by-caller-changed" + rtag,
+                                  info=dict(rec["info"], first_step=rec["tag"]))
+                if same and rec["ok"]:
+                    judge_gap(ctx, "cvxpy", rec["key"] + rtag, dsx, rec["fam"], v_now, rec["tp"], rec["tf"], rng,
+                              dict(rec["info"], history_step=rec["tag"] + rtag))
+                    rep = res_h.estimated_loss_sequence[pos] if res_h.estimated_loss_sequence else None
+                    if rep is not None and rec["rep"] is not None and getattr(dsx, "equal_counts", True):
+                        ctx.num("cvxpy:reported-loss", abs(float(rep) - dsx.L_v(rec["fam"], v_now) / dsx.J), rec["tp"], rec["tf"],
+                                key=f"cvxpy-scs:{dsx.model.t}:{rec['fam']}:reported-loss-is-not-the-loss-at-the-estimate{rec['tag']}{rtag}",
+                                info=rec["info"])
             st["ds"] = None
     finally:
         hs.uninstall()
